@@ -53,25 +53,36 @@ def gaugeStates (c : Circuit) : List FState :=
 
 def obsFlip (st : FState) (k : Nat) : Bool := ((st.obs.find? (·.1 == k)).map (·.2)).getD false
 
-/-- the linear functional "how often does this gauge Pauli flip the flow's parity" -/
+/-- the linear functional "how often does this gauge Pauli flip the flow's parity";
+    layout: for every reference `k` the pair (z, x) of the frame letter, the same for every system qubit, result flips, observable flips -/
 def flowRow (N m o : Nat) (st : FState) : List Bool :=
-  ((List.range N).flatMap fun k => let l := st.f.getD (N + k) .I; [pz l, px l]) ++
-  ((List.range N).flatMap fun k => let l := st.f.getD k .I; [pz l, px l]) ++
+  ((List.range (2 * N)).map fun j => let l := st.f.getD (N + j / 2) .I; if j % 2 == 0 then pz l else px l) ++
+  ((List.range (2 * N)).map fun j => let l := st.f.getD (j / 2) .I; if j % 2 == 0 then pz l else px l) ++
   ((List.range m).map fun i => st.flips.getD i false) ++
   ((List.range o).map fun k => obsFlip st k)
 
+/-- a flow as a vector; layout: (x, z) of every input letter, of every output letter, measurement indicator, observable indicator -/
 def flowVec (N m o : Nat) (fl : QFlow) : List Bool :=
-  ((List.range N).flatMap fun k => let l := fl.inP.getD k .I; [px l, pz l]) ++
-  ((List.range N).flatMap fun k => let l := fl.outP.getD k .I; [px l, pz l]) ++
+  ((List.range (2 * N)).map fun j => let l := fl.inP.getD (j / 2) .I; if j % 2 == 0 then px l else pz l) ++
+  ((List.range (2 * N)).map fun j => let l := fl.outP.getD (j / 2) .I; if j % 2 == 0 then px l else pz l) ++
   ((List.range m).map fun i => (fl.meas.filter (· == i)).length % 2 == 1) ++
   ((List.range o).map fun k => (fl.obs.filter (· == k)).length % 2 == 1)
+
+/-- product of two flows (phases are not tracked: this is the unsigned group) -/
+def QFlow.mul (N : Nat) (a b : QFlow) : QFlow :=
+  { inP := (List.range N).map fun k => ((a.inP.getD k .I).mul (b.inP.getD k .I)).2,
+    outP := (List.range N).map fun k => ((a.outP.getD k .I).mul (b.outP.getD k .I)).2,
+    sign := a.sign != b.sign,
+    meas := a.meas ++ b.meas,
+    obs := a.obs ++ b.obs }
 
 structure FlowCtx where
   N : Nat
   m : Nat
   o : Nat
   rows : List (List Bool)
-deriving Inhabited
+  run : Run                 -- the tableau model's reference run (every free outcome 0) of the purified circuit
+  obsVals : List (Nat × Bool)   -- observables (record targets) evaluated on the reference record
 
 def countResults (c : Circuit) : Nat :=
   c.unroll.foldl (fun acc op => match op with | .instr g _ _ ts => acc + resultsOf g ts | .rep _ _ _ => acc) 0
@@ -81,7 +92,8 @@ def flowCtx (c : Circuit) (N : Nat) : FlowCtx :=
   let m := countResults c
   let o := (c.symptomShape).2
   let rows := (gaugeStates (bellCircuit N c)).map (flowRow N m o)
-  { N := N, m := m, o := o, rows := rows.filter (·.any id) }
+  let run := runCircuit (bellCircuit N c) (.bias false)
+  { N := N, m := m, o := o, rows := rows.filter (·.any id), run := run, obsVals := (parities c (run.record.take m)).2.1 }
 
 /-- is the flow well formed for the circuit (indices in range, Paulis within `N` qubits)? -/
 def QFlow.wellFormed (fl : QFlow) (ctx : FlowCtx) : Bool :=
@@ -112,13 +124,13 @@ def obsHasPauli (c : Circuit) (k : Nat) : Bool :=
 def flowSignOnReference (c : Circuit) (ctx : FlowCtx) (fl : QFlow) : Option Bool :=
   if fl.obs.any (obsHasPauli c) then none else
   let tgts := flowObservableTargets ctx.N fl
-  let prog : Circuit := bellCircuit ctx.N c ++ (if tgts.isEmpty then [] else [.instr "MPP" "" [] tgts])
-  let record := referenceSample prog
-  let final := if tgts.isEmpty then false else record.getD ctx.m false
+  let record := ctx.run.record
+  -- the final observable, measured on the state the reference run ended in
+  let final := if tgts.isEmpty then false else
+    let (Q, inv) := productOf (2 * ctx.N) tgts
+    ((ctx.run.measure (.bias false) Q inv).record.getLast?).getD false
   let measPar := fl.meas.foldl (fun acc i => acc != record.getD i false) false
-  -- observables given by record targets, evaluated on the reference record
-  let obsVals := (parities c (record.take ctx.m)).2.1
-  let obsPar := fl.obs.foldl (fun acc k => acc != (((obsVals.find? (·.1 == k)).map (·.2)).getD false)) false
+  let obsPar := fl.obs.foldl (fun acc k => acc != (((ctx.obsVals.find? (·.1 == k)).map (·.2)).getD false)) false
   -- `Y ⊗ Y` has value −1 on a Bell pair: `Pᵀ = (−1)^{#Y} P`
   some ((final != measPar) != (obsPar != (countY fl.inP % 2 == 1)))
 
